@@ -338,6 +338,34 @@ func codecRule(c *Ctx, rule string) {
 var _ = packages.NeedName
 
 func runC43(c *Ctx) {
+	// the "would serialise to {}" verdict is taken from the encoder itself
+	if f := c.fn("empty-verdict", "modeling", "", "serializesToEmpty"); f != nil {
+		t := ExtractTable(c.P, f, TableConfig{LoopsOnce: true})
+		ok, why := len(t.Rows) > 0 && len(t.Unsupported) == 0, "outside the analysable fragment"
+		sawTrue := false
+		for _, r := range t.Rows {
+			if r.Out.Kind != "return" || len(r.Out.Vals) != 1 || r.Out.Vals[0].Kind != vBool {
+				continue
+			}
+			enc := r.Atom(func(a *Atom) bool { return a.IsBool && strings.Contains(a.Key, "json.Marshal(") && strings.Contains(a.Key, "\"{}\"") })
+			if r.Out.Vals[0].B {
+				sawTrue = true
+				if enc == nil || !enc.B {
+					ok, why = false, "a struct is declared to serialise to {} (and is rejected, or — when the verdict is false — accepted) without asking encoding/json what it emits for the type: json tags (json:\"-\" on an exported field) and embedded unexported types make the field list alone an unreliable predictor, so types whose whole state is silently dropped by a checkpoint are admitted"
+				}
+			} else if enc != nil && enc.B {
+				errNil := r.Atom(func(a *Atom) bool { return a.IsBool && strings.Contains(a.Key, "json.Marshal(") && strings.Contains(a.Key, "== nil") })
+				if errNil == nil || errNil.B {
+					ok, why = false, "a type that the encoder serialises to {} is not reported as empty"
+				}
+			}
+		}
+		if !sawTrue && ok {
+			ok, why = false, "no path reports an empty serialisation"
+		}
+		c.Check(ok, "empty-verdict", "modeling.serializesToEmpty", c.P.Decl(f).Pos(), "true exactly on the paths where json.Marshal of the zero value yields {}", why)
+	}
+
 	p := c.P
 	f := c.fn("accepted-kinds", "modeling", "", "validateFieldType")
 	if f != nil {
